@@ -205,6 +205,11 @@ namespace via
       const std::string& value() const noexcept
       { return value_; }
 
+      /// Whether part (or all) of a header line has been read.
+      /// @return true if at least one character of the line has been parsed.
+      bool started() const noexcept
+      { return length_ > 0u; }
+
       /// Calculate the length of the header.
       size_t length() const noexcept
       { return name_.size() + value_.size(); }
@@ -244,6 +249,7 @@ namespace via
       /// The current field being parsed
       field_line<MAX_LINE_LENGTH, MAX_WHITESPACE_CHARS, STRICT_CRLF> field_ {};
       bool       valid_ { false }; ///< true if the headers are valid
+      bool       blank_cr_ { false }; ///< the CR of the blank line has been read
       size_t     length_ { 0u };   ///< the length of the message headers
 
     public:
@@ -258,6 +264,7 @@ namespace via
         fields_.clear();
         field_.clear();
         valid_ = false;
+        blank_cr_ = false;
         length_ = 0;
       }
 
@@ -268,6 +275,7 @@ namespace via
         fields_.swap(other.fields_);
         field_.swap(other.field_);
         std::swap(valid_, other.valid_);
+        std::swap(blank_cr_, other.blank_cr_);
         std::swap(length_, other.length_);
       }
 
@@ -279,7 +287,10 @@ namespace via
       template<typename ForwardIterator>
       bool parse(ForwardIterator& iter, ForwardIterator end)
       {
-        while (iter != end && !is_end_of_line(*iter))
+        // Note: a field line may be in progress from the previous buffer, in
+        // which case it continues here, even with its CR or LF
+        while (!blank_cr_ && (iter != end) &&
+               (field_.started() || !is_end_of_line(*iter)))
         {
          // field_line field;
           if (!field_.parse(iter, end))
@@ -296,12 +307,16 @@ namespace via
 
         // Parse the blank line at the end of message_headers and
         // chunk trailers
-        if (iter == end || !is_end_of_line(*iter))
+        if (iter == end || (!blank_cr_ && !is_end_of_line(*iter)))
           return false;
 
         // allow \r\n or just \n
-        if ('\r' == *iter)
+        // Note: the CR may have been read at the end of the previous buffer
+        if (!blank_cr_ && ('\r' == *iter))
+        {
+          blank_cr_ = true;
           ++iter;
+        }
 
         if ((iter == end) || ('\n' != *iter))
            return false;
